@@ -315,7 +315,7 @@ PROPS["C12"] = dict(
     ],
     gates=dict(evaluations=(2500, 200000), distinct=(800, 20000),
                counters={"seq_hits_judged": (50000, 2000000), "seq_reopens": (1000, 50000), "fault_cases": (1000, 100000), "fault_hits_judged": (30000, 2000000), "concurrent_hits_judged": (500, 50000),
-                         "hook_points_crossed": (10000, 1000000), "damage_short-key-dir": (50, 5000), "damage_burst-data": (50, 5000), "damage_swap-two-items": (50, 5000)}),
+                         "hook_points_crossed": (10000, 1000000), "damage_short-key-dir": (50, 5000), "damage_burst-data": (50, 5000), "damage_swap-two-items": (50, 5000), "damage_rename-range-end": (50, 5000), "damage_burst-all-small-reopen": (50, 5000)}),
 )
 
 PROPS["C13"] = dict(
